@@ -124,7 +124,7 @@ Qed.
 Lemma items_nonempty en props pc p : p <> PNil -> items en props pc p <> [].
 Proof. destruct p; [congruence | discriminate | discriminate | discriminate | discriminate]. Qed.
 
-Lemma items_wp en props : forall p pc, wf_p en p -> wp pc (pc + zlen (compile_p p)) (items en props pc p).
+Lemma items_wp wc en props : forall p pc, wf_p wc en p -> @wp wc pc (pc + zlen (compile_p p)) (items en props pc p).
 Proof.
   induction p as [|s r IH|c a IHa r IHr|c a IHa eb IHe r IHr|c a IHa r IHr]; intros pc Hwf.
   - cbn [items compile_p]. rewrite zlen_nil. constructor. lia.
@@ -167,12 +167,12 @@ Qed.
 (* ---- the statements collected so far lie before the current address ---- *)
 Definition sinv (pc : Z) (m : mstate) : Prop := Forall (fun st => st_ok st = true /\ pos_of st < pc) (f_stmts (m_fn m)).
 
-Lemma sinv_after en props p pc m : wf_p en p -> agrees_p en props m -> sinv pc m -> sinv (pc + zlen (compile_p p)) (after_p en props pc p m).
+Lemma sinv_after wc en props p pc m : wf_p wc en p -> agrees_p en props m -> sinv pc m -> sinv (pc + zlen (compile_p p)) (after_p en props pc p m).
 Proof.
   intros Hwf Hag Hs. unfold sinv. destruct (after_p_facts en props p pc m Hag) as (_ & _ & E). rewrite E.
   pose proof (zlen_nonneg (compile_p p)). apply Forall_app. split.
   - eapply Forall_impl; [|exact Hs]. intros x [H1 H2]. split; [exact H1 | lia].
-  - eapply Forall_impl; [|exact (flats_within _ _ _ (items_wp en props p pc Hwf))]. intros x (H1 & H2 & _). split; [exact H1 | lia].
+  - eapply Forall_impl; [|exact (flats_within _ _ _ (items_wp wc en props p pc Hwf))]. intros x (H1 & H2 & _). split; [exact H1 | lia].
 Qed.
 Lemma sinv_add_jz en pc c m pj cond tgt : sinv pc m -> pc <= pj ->
   sinv (pj + 3) (add_stmt (with_stack (after_e en pc c m) (m_stack m)) pj (Jz pj cond tgt)).
@@ -206,7 +206,7 @@ Proof.
   rewrite E0, EB. reflexivity.
 Qed.
 
-Theorem exec_p en props : forall p, wf_p en p ->
+Theorem exec_p wc en props : forall p, wf_p wc en p ->
   forall d off len a fuel r m,
     agrees_p en props m -> m_stack m = [] -> sinv a m -> code_at d a (compile_p p) -> off <= a -> a + zlen (compile_p p) <= off + len ->
     exists r', run_ops (ninstr_p p + fuel) d off len a r m
@@ -251,7 +251,7 @@ Proof.
     rewrite E3.
     destruct (after_p_facts en props body (pj + 3) m2 Hag2) as (A1 & A2 & _).
     destruct (IHr Hwr d off len (pj + 3 + zlen (compile_p body)) fuel r3 (after_p en props (pj + 3) body m2) A1 (eq_trans A2 Hst2)
-                  (sinv_after en props body (pj + 3) m2 Hwa Hag2 Hsi2)) as [r4 E4];
+                  (sinv_after wc en props body (pj + 3) m2 Hwa Hag2 Hsi2)) as [r4 E4];
       [replace (pj + 3 + zlen (compile_p body)) with (a + zlen (compile_e c) + 3 + zlen (compile_p body)) by (subst pj; lia); exact Hcr
       | subst pj; lia | subst pj; lia |].
     rewrite E4. exists r4. f_equal. subst pj. lia.
@@ -300,14 +300,14 @@ Proof.
     destruct Hs2 as [r4 Hs2]. rewrite Nat.add_1_l. erewrite run_ops_step; [| subst jp pj; lia | exact Hs2].
     assert (Hag3 : agrees_p en props m3) by (apply agrees_add_stmt; exact A1).
     assert (Hst3 : m_stack m3 = []) by (subst m3; cbn [add_stmt m_stack]; rewrite A2; exact Hst2).
-    assert (Hsi3 : sinv (jp + 3) m3) by (subst m3; apply sinv_add_jump; subst ma jp; apply (sinv_after en props body (pj + 3) m2 Hwa Hag2 Hsi2)).
+    assert (Hsi3 : sinv (jp + 3) m3) by (subst m3; apply sinv_add_jump; subst ma jp; apply (sinv_after wc en props body (pj + 3) m2 Hwa Hag2 Hsi2)).
     destruct (IHe Hwe d off len (jp + 3) (ninstr_p rest + fuel)%nat r4 m3 Hag3 Hst3 Hsi3) as [r5 E5];
       [replace (jp + 3) with (a + zlen (compile_e c) + 3 + zlen (compile_p body) + 3) by (subst jp pj; lia); exact Hce
       | subst jp pj; lia | subst jp pj; lia |].
     rewrite E5.
     destruct (after_p_facts en props ebody (jp + 3) m3 Hag3) as (B1 & B2 & _).
     destruct (IHr Hwr d off len (jp + 3 + zlen (compile_p ebody)) fuel r5 (after_p en props (jp + 3) ebody m3) B1 (eq_trans B2 Hst3)
-                  (sinv_after en props ebody (jp + 3) m3 Hwe Hag3 Hsi3)) as [r6 E6];
+                  (sinv_after wc en props ebody (jp + 3) m3 Hwe Hag3 Hsi3)) as [r6 E6];
       [replace (jp + 3 + zlen (compile_p ebody)) with (a + zlen (compile_e c) + 3 + zlen (compile_p body) + 3 + zlen (compile_p ebody)) by (subst jp pj; lia); exact Hcr
       | subst jp pj; lia | subst jp pj; lia |].
     rewrite E6. exists r6. f_equal. subst jp pj. lia.
@@ -358,10 +358,10 @@ Proof.
       rewrite Est.
       assert (HB : Forall (fun st => st_ok st = true /\ a <= pos_of st) (Stmt pj (Jz pj (reify_e en a c) (pe + 2)) :: flats (items en props (pj + 3) body))).
       { constructor; [split; [reflexivity | cbn [pos_of]; subst pj; lia]|].
-        eapply Forall_impl; [|exact (flats_within _ _ _ (items_wp en props body (pj + 3) Hwa))]. intros x (Hx1 & Hx2 & _). split; [exact Hx1 | subst pj; lia]. }
+        eapply Forall_impl; [|exact (flats_within _ _ _ (items_wp wc en props body (pj + 3) Hwa))]. intros x (Hx1 & Hx2 & _). split; [exact Hx1 | subst pj; lia]. }
       rewrite (filter_back a (f_stmts (m_fn m)) _ ltac:(eapply Forall_impl; [|exact Hsi]; intros x [_ Hx]; exact Hx)
                            ltac:(eapply Forall_impl; [|exact HB]; intros x [_ Hx]; exact Hx)).
-      pose proof (remove_all_block (f_stmts (m_fn m)) (Stmt pj (Jz pj (reify_e en a c) (pe + 2)) :: flats (items en props (pj + 3) body)) [] a Hsi HB) as Er.
+      pose proof (remove_all_block (wc:=wc) (f_stmts (m_fn m)) (Stmt pj (Jz pj (reify_e en a c) (pe + 2)) :: flats (items en props (pj + 3) body)) [] a Hsi HB) as Er.
       rewrite !app_nil_r in Er. rewrite Er. cbn [bind]. reflexivity. }
     destruct Hs2 as [r4 Hs2]. rewrite Nat.add_1_l. erewrite run_ops_step; [| subst pe pj; lia | exact Hs2].
     assert (Hag4 : agrees_p en props m4).
@@ -379,7 +379,7 @@ Qed.
 
 (* ---- a whole handler: any nest of ifs over straight-line statements is rebuilt ---- *)
 Theorem nest_handler en props p d off fuel r m :
-  wf_p en p -> agrees_p en props m -> m_stack m = [] -> f_stmts (m_fn m) = [] ->
+  wf_p wcond_ok en p -> agrees_p en props m -> m_stack m = [] -> f_stmts (m_fn m) = [] ->
   code_at d off (compile_p p ++ [b 1]) ->
   let pexit := off + zlen (compile_p p) in
   let exit_st := Stmt pexit (Call "exit" pexit None true false false) in
@@ -391,7 +391,7 @@ Proof.
   intros Hwf Hag Hst Hnil Hc pexit exit_st. rewrite zlen_app, zlen_cons, zlen_nil in *.
   apply code_at_app in Hc. destruct Hc as [Hcb Hce]. pose proof (zlen_nonneg (compile_p p)).
   assert (Hsi : sinv off m) by (unfold sinv; rewrite Hnil; constructor).
-  destruct (exec_p en props p Hwf d off (zlen (compile_p p) + (1 + 0)) off (1 + fuel)%nat r m Hag Hst Hsi Hcb ltac:(lia) ltac:(lia)) as [r1 E1].
+  destruct (exec_p wcond_ok en props p Hwf d off (zlen (compile_p p) + (1 + 0)) off (1 + fuel)%nat r m Hag Hst Hsi Hcb ltac:(lia) ltac:(lia)) as [r1 E1].
   rewrite E1. set (m1 := after_p en props off p m).
   assert (Hs : step d pexit r1 m1 = Ok (pexit + 1, r1, add_stmt m1 pexit (Call "exit" pexit None true false false))).
   { apply (step_1 d pexit r1 m1 (b 1) "ExitOpcode" "" OExit _ Hce); [vm_compute; reflexivity | reflexivity | intros; reflexivity]. }
@@ -403,7 +403,7 @@ Proof.
   { unfold add_stmt. cbn [m_fn f_stmts set_stmts]. subst m1. rewrite Hsts, Hnil. reflexivity. }
   split; [exact Hf|]. rewrite Hf.
   (* the exit statement is one more plain item *)
-  assert (Hwp : wp off (pexit + 1) (items en props off p ++ [IPlain exit_st])).
+  assert (Hwp : wpw off (pexit + 1) (items en props off p ++ [IPlain exit_st])).
   { apply (wp_app off pexit); [apply items_wp; exact Hwf|].
     apply wp_plain; [reflexivity | cbn [pos_of exit_st]; lia | apply wp_nil; cbn [pos_of exit_st]; lia]. }
   pose proof (detect_nest _ _ _ Hwp) as Hd. rewrite flats_app, fins_app in Hd. cbn [flats flat_i fins fin_i app] in Hd.
